@@ -50,22 +50,22 @@ Proof. intros b vs index Hb. exact (read_after_write b Hb vs index). Qed.
    loader gives the same probability for every query in both structures -- whatever blanks each loader had to invent. *)
 From Coq Require Import Lia.
 From Kenlm Require Import LM.Load LM.LoadTrieProofs LM.LoadProbingProofs.
-Theorem C03_probing_trie_equal : forall N buckets unk_prob (unigrams : list gram) (higher : list (list gram)) tp tt K1 K2,
+Theorem C03_probing_trie_equal : forall N buckets rest_max unk_prob (unigrams : list gram) (higher : list (list gram)) tp tt K1 K2,
   (2 <= N)%nat -> length higher = (N - 1)%nat ->
   (forall g, In g unigrams -> length (g_key g) = 1%nat) ->
   (forall i sec, nth_error higher i = Some sec -> forall g, In g sec -> length (g_key g) = (2 + i)%nat) ->
   (forall g w, In g (unigrams ++ concat higher) -> In w (g_key g) -> M_of (unigrams ++ concat higher) [w] <> None) ->
-  load_probing buckets false true unk_prob unigrams higher = Loaded tp ->
+  load_probing buckets rest_max true unk_prob unigrams higher = Loaded tp ->
   load_trie N true unk_prob unigrams higher = Loaded tt ->
   forall ctx w, Defs.alookup tp [w] <> None -> Defs.alookup tt [w] <> None ->
   r_prob (fst (full_score_forgot N (Defs.alookup tp) K1 ctx w)) = r_prob (fst (full_score_forgot N (Defs.alookup tt) K2 ctx w)).
 Proof.
-  intros N buckets up unigrams higher tp tt K1 K2 HN Hl HU Hs Hw Hp Ht ctx w H1 H2.
+  intros N buckets rm up unigrams higher tp tt K1 K2 HN Hl HU Hs Hw Hp Ht ctx w H1 H2.
   assert (Hlen : forall g, In g (unigrams ++ concat higher) -> (1 <= length (g_key g) <= N)%nat).
   { intros g Hin. apply in_app_or in Hin. destruct Hin as [Hin|Hin]; [rewrite (HU g Hin); lia|].
     apply in_concat in Hin. destruct Hin as [s [Hs' Hin]]. apply In_nth_error in Hs'. destruct Hs' as [i Hi].
     rewrite (Hs i s Hi g Hin). assert (Hi' : (i < length higher)%nat) by (apply nth_error_Some; rewrite Hi; discriminate). lia. }
   exact (C03_equal_probabilities N (Defs.alookup tp) (Defs.alookup tt) (M_of (unigrams ++ concat higher)) K1 K2 HN
-           (load_probing_inv N buckets true up unigrams higher tp HN Hl HU Hs Hw (fun E => False_ind _ (Bool.diff_true_false E)) Hp)
+           (load_probing_inv N buckets rm true up unigrams higher tp HN Hl HU Hs Hw (fun E => False_ind _ (Bool.diff_true_false E)) Hp)
            (load_trie_inv N unigrams higher up tt HN Hlen Hw Ht) ctx w H1 H2).
 Qed.
